@@ -9,7 +9,10 @@ for d in sorted((VERIF / "seeded").iterdir()):
         continue
     meta = json.loads(m.read_text())
     checks = meta.get("checks", {})
-    caught = sorted(p for p, r in checks.items() if r.get("exit") == 1)
+    def _static_only(r):
+        v = r.get("violations") or []
+        return bool(v) and all("no-failing-input-found" in x for x in v)
+    caught = sorted((p + "°" if _static_only(r) else p) for p, r in checks.items() if r.get("exit") == 1)
     missed = sorted(p for p, r in checks.items() if r.get("exit") == 0)
     own = checks.get(meta["property"], {})
     rows.append((d.name, meta["property"], meta.get("summary", "")[:220].replace("\n", " ").replace("|", "/"),
@@ -17,6 +20,7 @@ for d in sorted((VERIF / "seeded").iterdir()):
                  "caught" if own.get("exit") == 1 else ("MISSED" if own.get("exit") == 0 else str(own.get("exit"))),
                  ", ".join(caught), ", ".join(missed), meta.get("strengthened", "")))
 out = ["# Seeded changes (independent sub-agents, property text only) and which checks catch them", "",
+       "`°` after a check name: that check exits 1 but only because a proof obligation / source-form table no longer checks and its search found no failing input (`no-failing-input-found`) — i.e. it notices that the code changed under it, not that the property is violated.", "",
        "Each directory holds `patch.diff`, `demo.py` (passes on the clean tree, fails with the patch — confirmed by `fv/seedtest.py adopt` in a fresh scratch worktree) and `meta.json` (incl. the exit code of every check run against the patched tree).", "",
        "| seed | property | change | needs | own check | checks that exit 1 | checks that exit 0 | strengthening done |", "|---|---|---|---|---|---|---|---|"]
 for r in rows:
